@@ -22,7 +22,7 @@ HEAD = {
     "C09": "C09_parse_total_final, C09_parser_terminates, C09_lexer_total/terminates, C09_error_positions (exhaustive: tree, LexerError or ParserError with a position inside the text)",
     "C10": "C10_parse_sound: a successful parse of a CR-free text implies the reference lexer and parser accept the whole text as one chunk with the same tree modulo parentheses",
     "C11": "C11_roundtrip, C11_precOK, brackets_sound_all (decide over the extracted 9568-entry table), Print_sim for general atoms",
-    "C12": "C12_error_designates (every InvalidDependencyError carries the token of a really uninlinable require call in a file of the dependency tree), C12_nothing_left (no call of the bare name require survives a successful resolution), C12_wrong_args_*, C12_missing_*, C12_untouched, C12_errors, C12_stmt_cycles_terminate",
+    "C12": "C12_complete (if resolution succeeds no file of the dependency tree contains an uninlinable require call, whatever the position; deduplication and cycles included), C12_error_designates (every InvalidDependencyError carries the token of a really uninlinable require call in a file of the dependency tree), C12_nothing_left (no call of the bare name require survives a successful resolution), C12_wrong_args_*, C12_missing_*, C12_untouched, C12_errors, C12_stmt_cycles_terminate",
     "C13": "C13_parsed, C13_emit_on/off, C13_placement, C08_comment_wf, Format_comments (comments found in the final text are the emitted comment pieces, in order)",
     "C14": "C14_noninterference (any interleaving of any histories) + no_shared_writes / format_leaves_arguments decided on the re-extracted static scan",
     "C15": "C15_idempotent: minify(parse(minify(parse(src)))) = minify(parse(src)) byte for byte, for MinifiedStyle as extracted; C15_idempotent_general",
